@@ -103,7 +103,6 @@ class DAGRunConcurrentManager(DAGRunManagerLike):
     _lock_manager: DAGConcurrentManagerLock = field(init=False)
     _memorization_store: t.Dict[t.Any, t.Any] = field(default_factory=dict)
     _coro_tasks: t.Set[asyncio.Task] = field(default_factory=set)
-    _released_oneof_children: t.Set[NodeId] = field(default_factory=set)
     _additional_data: t.Dict[NodeId, t.Any] = field(default_factory=dict)
     _alias_run_method: str = 'run'
 
@@ -268,14 +267,13 @@ class DAGRunConcurrentManager(DAGRunManagerLike):
             Args:
                 u -  Node
             """
+            # A OneOf candidate is visible only as the destination of its own subgraph. It must stay hidden from
+            # every other subgraph: its failure belongs to its OneOf only (and the graph is shared by all runs
+            # of the DAG, so the mark cannot be changed in the graph itself).
             return (
-                u in self._released_oneof_children
+                (is_oneof and u == dest)
                 or not self.dag.graph.nodes[u].get(NodeField.is_oneof_child)
             )
-
-        if is_oneof:
-            # The graph is shared by all runs of the DAG, so the mark cannot be changed in the graph itself
-            self._released_oneof_children.add(dest)
 
         return get_connected_subgraph(
             dag=nx.subgraph_view(self.dag.graph, filter_edge=_filter, filter_node=_filter_node),
